@@ -114,7 +114,10 @@ def output_namespace(verdict, tier):
                         ref = a.sample_posterior(n_samples=16)
                         a2 = Aspire(log_likelihood=ll, log_prior=lp, dims=2, parameters=["a", "b"],
                                     flow=FakeFlow(flow_ns, width), xp=sxp, dtype=f"float{width}")
-                        out = a2.sample_posterior(n_samples=16, xp=dxp)
+                        if (n % 2) == 0:
+                            out = a2.sample_posterior(n_samples=16, xp=dxp)
+                        else:       # the same call when the history is asked for as well
+                            out, _hist = a2.sample_posterior(n_samples=16, xp=dxp, return_history=True)
                     except Exception as ex:
                         verdict.violation(f"ConvertPreserves|sample_posterior|{src}->{dst}|{type(ex).__name__}",
                                           f"sample_posterior(xp={dst}) with samples in {src} float{width} (proposal arrays in {flow_ns}) raised {type(ex).__name__}: {str(ex)[:150]}", scen)
